@@ -148,6 +148,7 @@ def run_cli(argv, world=None, env=None, files=None, reset=True, keep_state=False
         world = vnet.World()
     if reset:
         reset_state()
+    _sched.reset_locks()          # a lock still held when an invocation ends dies with the process
     vnet.set_world(world)
     res = Result()
     res.argv = list(argv)
@@ -182,6 +183,9 @@ def run_cli(argv, world=None, env=None, files=None, reset=True, keep_state=False
             status = -999
         except vnet.HarnessError:
             raise
+        except _sched.DeadlockDetected as e:
+            res.hang = 'deadlock: %s' % e
+            status = -999
         except BaseException as e:   # an exception that escaped the CLI's own catch-all
             res.exc = '%s: %s' % (type(e).__name__, e)
             status = 1 if isinstance(e, KeyboardInterrupt) else -998
@@ -200,6 +204,9 @@ def run_cli(argv, world=None, env=None, files=None, reset=True, keep_state=False
         res.stdout = out.getvalue()
         res.stderr = err.getvalue()
     res.world = world
+    dl = getattr(world, 'deadlock', None) or (getattr(world.sched, 'deadlock', None) if getattr(world, 'sched', None) is not None else None)
+    if dl and not res.hang:
+        res.hang = 'deadlock: %s' % (dl,)
     res.clock = world.max_clock()
     res.ops = world.ops
     res.state_diff = state_diff()
